@@ -758,6 +758,8 @@ def module_attr(eng, modname, attr):
         if eng.repo.has_const(modname, attr):
             return Conc(eng.repo.const(modname, attr))
         raise Unsupported("module attribute %s.%s" % (modname, attr))
+    if modname == "errno" and attr == "EEXIST":
+        return Conc(17)
     if modname == "re" and attr in ("IGNORECASE", "I", "MULTILINE", "DOTALL", "VERBOSE", "ASCII"):
         import re as _re
         return Conc(int(getattr(_re, attr)))
@@ -1031,6 +1033,11 @@ def seq_of(eng, v):
         items = c.items
         if not items:
             return None
+        if all(isinstance(i, TupV) and len(i.items) == 2 for i in items):
+            # list of pairs of strings: elements of the opaque Pair sort
+            h = eng.reg.ext.get("mkpair")
+            if h is not None:
+                items = [h(eng, list(i.items), {}, None) for i in items]
         ety = None
         for it in items:
             if isinstance(it, P):
